@@ -383,6 +383,16 @@ func runOne(w *run.W, i int) {
 		w.Violate("invalid-output", map[string]string{"behaviour": behaviourSig(), "api": apiClass, "reason": reason}, format+"; "+desc(), a...)
 	}
 	if closeErr != nil {
+		if swallowedNestedError() {
+			// User code ignored the error of a nested MarshalEncode.  The library then marks the namespaces it had
+			// disabled as invalid "so that future method calls on Encoder will return an error" (state.go,
+			// InvalidateDisabledNamespaces) - the caller-held encoder refuses to go on although the outer call,
+			// which wrote exactly one value, returned nil.  The property speaks about the bytes of a nil-error
+			// call, not about the encoder afterwards: observed, not demanded (the bytes cannot be completed and
+			// therefore cannot be judged here; the same scripts are judged on the other routes).
+			w.Count("observed_encoder_refuses_after_swallowed_nested_error", 1)
+			return
+		}
 		violate("encoder-state", "MarshalEncode returned nil but the harness's closing token was refused: %v", closeErr)
 		return
 	}
